@@ -29,5 +29,11 @@ def units(tier):
             H("C09", M, "check_factory_step", 1800 if tier == "thorough" else 700,
               ["loky.reusable_executor:_ReusablePoolExecutor.get_reusable_executor", "loky.reusable_executor:_get_next_executor_id"],
               "max_workers in {None,-1..3}, reuse in {True,False,'auto'}, context in {None, loky-like, fork-like}, prev size 1..3, next id 1..5; the wait of the old instance's shutdown may be interrupted"),
+            H("C09", "lokyverif.harness.c10_resize", "check_resize_aborted", 300, ["loky.reusable_executor:_ReusablePoolExecutor._resize"],
+              "old != new in 1..3, 0..old live workers; the wait for running jobs is aborted by an exception: nothing of the resize may have happened"),
+            H("C09", "lokyverif.harness.c02_broken", "check_shutdown_twice", 300, ["loky.process_executor:ProcessPoolExecutor.shutdown"],
+              "shutdown(wait=False) followed by shutdown(wait=*, kill_workers=*) on the same object"),
+            H("C09", M, "check_factory_reducers", 300, ["loky.reusable_executor:_ReusablePoolExecutor.get_reusable_executor"],
+              "previous and new request each with one of 4 reducer configurations, reuse in {True,False,'auto'}, previous instance healthy or shut down, other arguments equal or not"),
             H("C09", "lokyverif.harness.c02_broken", "check_shutdown_call", 300, ["loky.process_executor:ProcessPoolExecutor.shutdown"],
               "'the previous instance is completely shut down first': shutdown(wait=True, kill_workers=*) on an instance that an earlier shutdown(wait=False) already flagged still wakes and joins the manager thread (16 combinations)")]
